@@ -9,11 +9,13 @@
   CASE args: `n tol m11 m12 m21 m22 m31 m32 <prog> <advice>`,
   prog = `B x y a*n | L x y a*n | Q cx cy x y a*n | C c1x c1y c2x c2y x y a*n | E 0/1`,
   advice = `| FQ/FC <ctrl points> k (fx fy tx ty t)*k` and `| IQ/IC <ctrl points> k (x y)*k`.
+  Family `e2e` uses the C09 model of the flattener instead of the advice (end-to-end tie).
   Output: per family the routes listed in the harness' header, calls as `B/L/Q/C/E`, events as
   `b/l/q/c/e`.
 -/
 import LyonVerif.Drive.Common
 import LyonVerif.Model.Geom.Basic
+import LyonVerif.Model.Geom.Flatten
 import LyonVerif.Model.Path.Adapters
 
 namespace Lyon.Drive.C16
@@ -195,11 +197,35 @@ def in_ (i : Inp) : String :=
   unwords ("tf" :: fevs (flatIter G (xfIter i.m.apply (specEvents i.prog)))
     ++ "ft" :: fevs (xfIter i.m.apply (flatIter G (specEvents i.prog))))
 
+/-! ### end to end: the same routes with the C09 MODEL of lyon_geom's flatteners
+(`Model/Geom/Flatten.lean`) instead of the advice (family `e2e`; the advice in the CASE line is
+ignored) -/
+
+def fuelMax : Nat := 200000
+
+def cbModel (tol : F) : Flattener Pn F where
+  quad a c b :=
+    ((Quad.forEachFlattenedWithT ⟨a, c, b⟩ tol).getD []).map fun s => ⟨s.a, s.b, s.t1⟩
+  cubic a c1 c2 b :=
+    ((Cubic.forEachFlattenedWithT ⟨a, c1, c2, b⟩ tol).getD []).map fun s => ⟨s.a, s.b, s.t1⟩
+
+def itModel (tol : F) : IterFlattener Pn where
+  quad a c b := (QuadIter.new ⟨a, c, b⟩ tol).collect fuelMax
+  cubic a c1 c2 b :=
+    match CubicIter.new ⟨a, c1, c2, b⟩ tol with
+    | some it => it.collect fuelMax
+    | none => []
+
+def e2e (i : Inp) : String :=
+  unwords ("b" :: fcalls (flatBuilder (cbModel i.tol) origin i.n i.prog)
+    ++ "f" :: fevs (flatIter (itModel i.tol) (specEvents i.prog))
+    ++ "a" :: faevs (flatAttrIter (cbModel i.tol) (attrEvents i.prog)))
+
 def fam (name : String) (f : Inp → String) : Family := Family.plain name (fun v => f (parse v))
 
 def families : List Family := [
   fam "wit" bf, fam "bf" bf, fam "bt" bt, fam "bn" bn, fam "na" na, fam "pb" pb,
-  fam "it" it, fam "ix" ix, fam "in" in_ ]
+  fam "it" it, fam "ix" ix, fam "in" in_, fam "e2e" e2e ]
 
 end Lyon.Drive.C16
 
